@@ -153,6 +153,7 @@ type tr struct {
 	envFuncs map[types.Object]*types.Signature
 	recvName string
 	closureBase string
+	inoutNames  []string
 	// per function
 	p       *pkgInfo
 	recv    *types.Var
@@ -439,6 +440,7 @@ func (t *tr) closureDecl(c *closure) string {
 	t.recv, t.recvPtr = nil, true
 	t.recvName = "env"
 	t.named = nil
+	t.inoutNames = nil
 	t.env = map[types.Object]bool{}
 	t.envFuncs = map[types.Object]*types.Signature{}
 	defer func() { t.env, t.envFuncs, t.recvName = nil, nil, "" }()
@@ -723,6 +725,41 @@ func (t *tr) addStruct(n *types.Named) {
 
 // ---------- purity ----------
 
+// inoutParams: indices of slice parameters the function writes into (`p[i] = v`): the caller sees the writes in Go
+// (shared backing array), so the translated function hands such a parameter back and the call site re-binds it
+func (t *tr) inoutParams(f *types.Func) []int {
+	fd := t.funcs[f]
+	p := t.fpkg[f]
+	if fd == nil {
+		return nil
+	}
+	sig := f.Type().(*types.Signature)
+	var out []int
+	for i := 0; i < sig.Params().Len(); i++ {
+		pv := sig.Params().At(i)
+		if _, ok := pv.Type().Underlying().(*types.Slice); !ok {
+			continue
+		}
+		hit := false
+		ast.Inspect(fd.Body, func(n ast.Node) bool {
+			if as, ok := n.(*ast.AssignStmt); ok {
+				for _, l := range as.Lhs {
+					if ix, ok := l.(*ast.IndexExpr); ok {
+						if id, ok := ix.X.(*ast.Ident); ok && p.info.Uses[id] == types.Object(pv) {
+							hit = true
+						}
+					}
+				}
+			}
+			return true
+		})
+		if hit {
+			out = append(out, i)
+		}
+	}
+	return out
+}
+
 // mutatesRecv: the function has a pointer receiver and assigns to it (a field, an element, through a method that does, or
 // calls one of its function fields). A pointer receiver that is only read is translated like a value receiver.
 func (t *tr) mutatesRecv(f *types.Func) bool {
@@ -807,6 +844,10 @@ func (t *tr) needsMonad(f *types.Func) bool {
 			need = true
 		case *ast.SliceExpr:
 			need = true
+		case *ast.ForStmt:
+			if !countingLoop(x) {
+				need = true // fuel exhaustion is a throw
+			}
 		case *ast.BinaryExpr:
 			if x.Op == token.QUO || x.Op == token.REM {
 				if tv, ok := p.info.Types[x.Y]; !ok || tv.Value == nil {
@@ -1113,6 +1154,19 @@ func (t *tr) funcDecl(f *types.Func) string {
 	if len(t.named) != 0 && len(t.named) != sig.Results().Len() {
 		t.fail(fd, "partly named results")
 	}
+	t.inoutNames = nil
+	var inoutTypes []string
+	for _, i := range t.inoutParams(f) {
+		pv := sig.Params().At(i)
+		t.inoutNames = append(t.inoutNames, name(pv.Name()))
+		inoutTypes = append(inoutTypes, t.leanType(fd, pv.Type()))
+	}
+	if len(t.inoutNames) > 0 {
+		if t.recvPtr {
+			t.fail(fd, "in-out slice parameters on a receiver-mutating method")
+		}
+		rts = append(inoutTypes, rts...)
+	}
 	ret := "Unit"
 	if len(rts) > 0 {
 		ret = strings.Join(rts, " × ")
@@ -1229,6 +1283,9 @@ func endsInReturn(l []ast.Stmt) bool {
 func (t *tr) returnStmt(n *ast.ReturnStmt, vals []string) string {
 	if n == nil || len(n.Results) == 0 {
 		vals = append([]string{}, t.named...)
+	}
+	if len(t.inoutNames) > 0 {
+		vals = append(append([]string{}, t.inoutNames...), vals...)
 	}
 	if t.recvPtr {
 		vals = append([]string{t.recvName}, vals...)
@@ -1511,13 +1568,40 @@ func hasBreakContinue(b *ast.BlockStmt) bool {
 	return found
 }
 
+// generalFor: `for init; cond; post { body }` with an arbitrary condition: at most Go.loopFuel iterations, then the
+// translation gives up with a throw (so that "returns normally" is never claimed for a loop that did not finish)
+func (t *tr) generalFor(sb *strings.Builder, x *ast.ForStmt, ind string) {
+	if x.Cond == nil {
+		t.fail(x, "for loop without a condition")
+	}
+	if hasBreakContinue(x.Body) {
+		t.fail(x, "break/continue in a loop")
+	}
+	if !t.mon {
+		t.fail(x, "general loop in a function that is not monadic")
+	}
+	fmt.Fprintf(sb, "%sdo\n", ind)
+	in2 := ind + "  "
+	if x.Init != nil {
+		t.stmt(sb, x.Init, in2)
+	}
+	fmt.Fprintf(sb, "%sfor _ in [0:Go.loopFuel] do\n", in2)
+	fmt.Fprintf(sb, "%s  if ¬(%s) then break\n", in2, t.cond(x.Cond))
+	t.block(sb, x.Body.List, in2+"  ")
+	if x.Post != nil {
+		t.stmt(sb, x.Post, in2+"  ")
+	}
+	fmt.Fprintf(sb, "%sif %s then throw \"go2lean: loop fuel exhausted\"\n", in2, t.cond(x.Cond))
+}
+
 func (t *tr) forStmt(sb *strings.Builder, x *ast.ForStmt, ind string) {
 	// for i := a; i < b; i++ { body }   (body assigns neither i nor the variables of b)
 	init, ok1 := x.Init.(*ast.AssignStmt)
 	cond, ok2 := x.Cond.(*ast.BinaryExpr)
 	post, ok3 := x.Post.(*ast.IncDecStmt)
 	if !ok1 || !ok2 || !ok3 || init.Tok != token.DEFINE || len(init.Lhs) != 1 || cond.Op != token.LSS || post.Tok != token.INC {
-		t.fail(x, "for loop form (only `for i := a; i < b; i++`)")
+		t.generalFor(sb, x, ind)
+		return
 	}
 	iv := init.Lhs[0].(*ast.Ident)
 	if c, ok := cond.X.(*ast.Ident); !ok || c.Name != iv.Name {
@@ -1526,8 +1610,12 @@ func (t *tr) forStmt(sb *strings.Builder, x *ast.ForStmt, ind string) {
 	if p, ok := post.X.(*ast.Ident); !ok || p.Name != iv.Name {
 		t.fail(x, "for loop post statement")
 	}
-	if assigned(x.Body, name(iv.Name)) || hasBreakContinue(x.Body) {
-		t.fail(x, "for loop body assigns the counter or leaves the loop")
+	if assigned(x.Body, name(iv.Name)) {
+		t.generalFor(sb, x, ind)
+		return
+	}
+	if hasBreakContinue(x.Body) {
+		t.fail(x, "for loop body leaves the loop")
 	}
 	ast.Inspect(cond.Y, func(n ast.Node) bool {
 		if id, ok := n.(*ast.Ident); ok && assigned(x.Body, name(id.Name)) {
@@ -1551,6 +1639,18 @@ func (t *tr) forStmt(sb *strings.Builder, x *ast.ForStmt, ind string) {
 		fmt.Fprintf(sb, "%s  let %s : Nat := %s + %s\n", ind, name(iv.Name), lo, k)
 	}
 	t.block(sb, x.Body.List, ind+"  ")
+}
+
+// countingLoop: the syntactic shape `for i := a; i < b; i++` (the body conditions are checked when it is translated)
+func countingLoop(x *ast.ForStmt) bool {
+	init, ok1 := x.Init.(*ast.AssignStmt)
+	cond, ok2 := x.Cond.(*ast.BinaryExpr)
+	post, ok3 := x.Post.(*ast.IncDecStmt)
+	if !ok1 || !ok2 || !ok3 || init.Tok != token.DEFINE || len(init.Lhs) != 1 || cond.Op != token.LSS || post.Tok != token.INC {
+		return false
+	}
+	iv, ok := init.Lhs[0].(*ast.Ident)
+	return ok && !assigned(x.Body, name(iv.Name))
 }
 
 func isBuiltin(c *ast.CallExpr, nm string) bool {
@@ -1797,6 +1897,28 @@ func (t *tr) callStmt(sb *strings.Builder, c *ast.CallExpr, lhs []ast.Expr, defi
 	}
 	call := t.funcName(g) + " " + strings.Join(args, " ")
 	nres := sig.Results().Len()
+	if io := t.inoutParams(g); len(io) > 0 {
+		if ptrRecv || sig.Recv() != nil || lhs != nil || nres != 0 || len(io) != 1 {
+			t.fail(c, "call of %s, which writes into a slice parameter, in this position", g.Name())
+		}
+		id, ok := c.Args[io[0]].(*ast.Ident)
+		if !ok {
+			t.fail(c, "in-out argument of %s must be a variable", g.Name())
+		}
+		arrow := "←"
+		if !t.monadic[g] {
+			arrow = ":="
+		}
+		if o := t.p.info.Uses[id]; o != nil && t.env != nil && t.env[o] {
+			t.fail(c, "in-out argument captured by a closure")
+		}
+		if arrow == "←" {
+			fmt.Fprintf(sb, "%s%s ← %s\n", ind, name(id.Name), call)
+		} else {
+			fmt.Fprintf(sb, "%s%s := %s\n", ind, name(id.Name), call)
+		}
+		return true
+	}
 	if !ptrRecv {
 		if lhs == nil {
 			if t.monadic[g] {
